@@ -18,7 +18,18 @@ def run(tier):
                cat={"b1": attr("app", "far", tsg=1), "b2": attr("app", "far", tsg=1), "b3": attr("app", "p1", tsg=1), "b4": attr("app", "far", tsg=2)})
     famz = dict(peers=P, enabled=["Submit", "PeerUp", "SetFail", "RetryTick", "Restart", "CleanTick"],
                 cat={"z1": attr("app", "far", tsg=1, clockless=True), "z2": attr("app", "p2", tsg=1, clockless=True), "z3": attr("app", "far", tsg=1, clockless=True)})
-    plans = []
+    # a gap in the stored numbers (lower one delivered and released, higher one still stored), a restart, then two submissions
+    famg = dict(peers=["p2"], enabled=["Submit", "PeerUp", "Restart"],
+                cat={"z1": attr("app", "far", tsg=1, clockless=True), "z2": attr("app", "p2", tsg=1, clockless=True), "z3": attr("app", "far", tsg=1, clockless=True),
+                     "z4": attr("app", "far", tsg=1, clockless=True)})
+
+    def after_restart(h):
+        acts = [st["act"] for st in h]
+        if "Restart" not in acts:
+            return 0
+        i = len(acts) - 1 - acts[::-1].index("Restart")
+        return acts[i:].count("Submit") * 10 + acts[:i].count("Submit") + (5 if "PeerUp" in acts[:i] else 0)
+    plans = [dict(name="epoch-gap", fam=famg, algo="epidemic", budget=3, steps=6, cap=350 if quick else None, mc=False, prefer=after_restart)]
     for a in (["epidemic", "binary_spray"] if quick else ALGOS):
         plans.append(dict(name="same-ms", fam=fam, algo=a, budget=3, steps=5 if quick else 6, sim=(30, 12) if quick else (600, 16), cap=250 if quick else None, mc=not quick or a == "epidemic"))
         plans.append(dict(name="epoch", fam=famz, algo=a, budget=3, steps=5 if quick else 6, cap=200 if quick else None, mc=False))
